@@ -161,6 +161,18 @@ func streamConc(c *Ctx) {
 				payload := payloadFor(g, k, size)
 				desc := fmt.Sprintf("%s call %s size=%d", set.name, id, len(payload))
 				ctx := context.Background()
+				if k%5 == 4 {
+					// a corrupt compressed request from some other peer, on the same handler
+					enc := []string{"gzip", "rle"}[g%2]
+					req, _ := http.NewRequest(http.MethodPost, srv.URL+"/s/unary", bytes.NewReader(frame(1, []byte("this is not compressed data"))))
+					req.Header.Set("Content-Type", "application/grpc-web+raw")
+					req.Header.Set("Grpc-Encoding", enc)
+					if res, err := srv.Client().Do(req); err == nil {
+						_, _ = io.Copy(io.Discard, res.Body)
+						_ = res.Body.Close()
+					}
+					c.Count("conc:corrupt")
+				}
 				switch k % 4 {
 				case 0, 1:
 					req := connect.NewRequest(&payload)
@@ -265,7 +277,11 @@ func streamConc(c *Ctx) {
 		if end > len(events) {
 			end = len(events)
 		}
-		c.Emit("pool.trace "+strings.Join(events[i:end], " "), traceVerdict(events[i:end]), true)
+		verdict := traceVerdict(events[i:end])
+		if verdict != "accepted" {
+			c.Fail("conc-pool-discipline", fmt.Sprintf("recorded pool trace, events %d..%d", i, end), verdict, "a pooled buffer was handed out while still out, or returned twice (event index in the chunk)")
+		}
+		c.Emit("pool.trace "+strings.Join(events[i:end], " "), verdict, true)
 	}
 	c.Note("%d goroutines x %d calls over %d client configurations; %d pool events recorded", G, K, len(sets), len(events))
 }
